@@ -342,11 +342,82 @@ async def early_scenario(net, hyg, plan):
         w.cleanup()
 
 
+async def two_servers_scenario(net, hyg, plan):
+    """One list of User objects handed to two Server objects (a second listener, a configuration reload): each server keeps
+    its own count; building or using the second one changes nothing for sessions attached on the first."""
+    from ..rawpeer import RawPeer
+    viol = []
+    mon = {"two_servers": 1, "blackbox_readmission": 0, "bound_at_events": 0}
+    users = [aioftp.User("b", None, base_path="/", maximum_connections=plan["limit"]), aioftp.User("a", "pa", base_path="/", maximum_connections=1)]
+    w = W.World(net, users=users)
+    w.server = aioftp.Server(users, path_io_factory=w.factory)
+    await w.server.start("127.0.0.1", 2121)
+    second = None
+    try:
+        held = []
+        for i in range(plan["limit"]):
+            h = RawPeer(net, 2121, name=f"holder{i}")
+            await h.connect()
+            r = await h.cmd("USER b")
+            if r in (None, "EOF") or r.code != "230":
+                viol.append({"key": "user-slot-leak", "msg": f"holder {i} of {plan['limit']}: USER b answered {r}"})
+            held.append(h)
+        # the same users list goes into another Server object
+        second = aioftp.Server(users, path_io_factory=aioftp.MemoryPathIO)
+        if plan["start_second"]:
+            await second.start("127.0.0.1", 2122)
+            x2 = RawPeer(net, 2122, name="on-second")
+            await x2.connect()
+            r2 = await x2.cmd("USER b")
+            if r2 in (None, "EOF") or r2.code != "230":
+                viol.append({"key": "limit-shared-between-servers", "msg": f"the second server (nobody attached there) answered USER b with {r2}"})
+        x = RawPeer(net, 2121, name="one-too-many")
+        await x.connect()
+        r = await x.cmd("USER b")
+        mon["bound_at_events"] += 1
+        if r in (None, "EOF") or r.code != "530":
+            viol.append({"key": "user-limit-not-enforced",
+                         "msg": f"{plan['limit']} sessions attached to b (limit {plan['limit']}); after another Server was built from the same "
+                                f"users list, one more USER b on the first server answered {r}"})
+        for h in held:
+            await h.cmd("QUIT")
+            h.cut("fin")
+        x.cut("fin")
+        await net.quiesce(1.0)
+        for le in hyg.logged_exceptions():
+            if "Too many" in le["exc"]:
+                viol.append({"key": "accounting-raised:logged", "msg": str(le)})
+        mon["blackbox_readmission"] += 1
+        got = []
+        fresh = []
+        for i in range(plan["limit"] + 1):
+            f = RawPeer(net, 2121, name=f"fresh{i}")
+            await f.connect()
+            r = await f.cmd("USER b")
+            got.append(r.code if r not in (None, "EOF") else str(r))
+            fresh.append(f)
+        if got != ["230"] * plan["limit"] + ["530"]:
+            viol.append({"key": "user-slot-leak" if got.count("230") < plan["limit"] else "user-limit-not-enforced",
+                         "msg": f"afterwards {plan['limit'] + 1} x USER b on the first server answered {got}"})
+        for f in fresh:
+            f.cut("fin")
+        await net.quiesce(0.5)
+        if second is not None and plan["start_second"]:
+            await second.close()
+        await w.stop()
+        return {"violations": viol, "monitors": mon, "nevents": len(net.events), "cut_done": False,
+                "sig": sig_of(["two-servers", plan["limit"], plan["start_second"]]), "nontrivial": True, "codes": []}
+    finally:
+        w.cleanup()
+
+
 def run_plan(plan):
     rearm()
     async def main(net, hyg):
         if plan.get("early") is not None:
             return await early_scenario(net, hyg, plan)
+        if plan.get("two_servers"):
+            return await two_servers_scenario(net, hyg, plan)
         return await scenario(net, hyg, plan)
     res, info = W.run(main, seed=plan.get("seed", 0), net_kwargs=dict(latency=plan.get("latency", 0.001), jitter=plan.get("jitter", 0.0)))
     if res is None:
@@ -496,6 +567,10 @@ def gen_cases(tier, seed):
                           "plan": {"seed": seed, "server_limit": smax, "ulimits": ul, "anonymous": False, "write_speed_limit": 150,
                                    "scripts": [sc, [["connect"], ["cmd", "USER b"], ["sleep", 0.05], ["quit"]]],
                                    "offsets": [0, 0.0031]}})
+    for limit in (1, 2):
+        for start_second in (False, True):
+            cases.append({"kind": "single", "plan": {"seed": seed, "two_servers": True, "limit": limit, "start_second": start_second, "scripts": [],
+                                                     "server_limit": None, "ulimits": {}}})
     # peers beyond the server-wide limit whose first command is there before the server looks at the connection
     for smax in (1, 2):
         for wsl in (None, 20, 150):
